@@ -24,7 +24,7 @@ T.register("C01", __name__, T.h_ni, {"pert": None}, [g for g in ALL if len(g.uni
 
 # L3: the real Cached / MemoryCache / cache handlers / Dataset._composed stack on one long-lived graph (stub S1 in symbolic runs)
 _HIST = [g for g in ALL if (g.tags & {"ds", "cached"}) and g.gid not in HEAVY]
-_QUICK_HIST = {"g11", "g13", "g14", "g15", "g62", "g64", "g65", "g17"}
+_QUICK_HIST = {"g11", "g13", "g14", "g15", "g62", "g64", "g65", "g17", "g39", "g3A"}
 for _tier, _gs in (("quick", [g for g in _HIST if g.gid in _QUICK_HIST]), ("thorough", [g for g in _HIST if g.gid not in _QUICK_HIST])):
     T.register("C01", __name__, T.h_hist, {"mode": "c01"}, _gs, lemma="L3", name_prefix="hist", two=True, timeout=600, stubs=("S1",),
                tier=_tier, cubes=lambda g: {"pert": [[j] for j in range(len(g.universe))]}, extra_params=[("extra", "int")],
